@@ -34,6 +34,12 @@
 // with parallelism in {0, -1} x bufferSize in {-3, 0, 1} on 80..140 items with a straggler at 0
 // or late-first latency and a slow consumer; the in-flight bound and the f-concurrency gauge are
 // judged against the GOMAXPROCS value in force at the call.
+// Group "extreme": MapIterator with bufferSize in {MaxInt, MaxInt-1, MaxInt-parallelism, MaxInt/2,
+// 1<<40} x parallelism in {1, 3, 8, 0, -1} on short inputs (the stated bound saturates at MaxInt).
+// Group "dense": >= 60 000 tiny MapStream runs per quick run (batches of 400 under one Await, several
+// goroutines): parallelism 1 (80%) or 2, bufferSize 0/1/4, a source that never blocks (returns at
+// once, or polls its ctx a swept 0..240 times per item), f failing at a random item; the reported
+// error must be f's own (never End, never a context error the library made).
 // Injected error VALUES (source and f): a sentinel, context.Canceled itself, a wrapped
 // context.Canceled, context.DeadlineExceeded, an error wrapping stream.End, an error whose Is
 // method matches stream.End. The reported error must be the injected one (errors.Is(reported,
@@ -50,6 +56,7 @@ import (
 	"context"
 	"errors"
 	"fmt"
+	"math"
 	"runtime"
 	"strconv"
 	"strings"
@@ -114,8 +121,8 @@ func main() {
 		r.Assume("parallelism <= 0 means runtime.GOMAXPROCS at the time of the call; GOMAXPROCS changes only where the monitor changes it itself (group \"procs\", which runs alone, sequentially, after all other groups)")
 		r.Assume("the goroutine dump format of the Go runtime in use (go1.23) — used for the STUCK verdict and the leak check")
 
-		nIter := r.Scale(900, 2600)
-		nStream := r.Scale(2400, 6600)
+		nIter := r.Scale(900, 2300)
+		nStream := r.Scale(2400, 5800)
 		workers := 4
 		if runtime.GOMAXPROCS(0) < 4 {
 			workers = 2
@@ -138,6 +145,25 @@ func main() {
 				runPlan(c, mkSmallPlan(c.Rand, api, sp), st)
 			})
 		}
+
+		// Extreme bufferSize values (MapIterator only: MapStream allocates channels of capacity
+		// bufferSize, so it cannot be called with them on any tree).
+		var ext []extSpec
+		for rep := 0; rep < r.Scale(2, 8); rep++ {
+			for _, par := range []int{1, 3, 8, 0, -1} {
+				for bk := 0; bk < 5; bk++ {
+					ext = append(ext, extSpec{par: par, bk: bk})
+				}
+			}
+		}
+		r.Cases("extreme", len(ext), workers, func(c *vkit.Case) { runPlan(c, mkExtremePlan(c.Rand, ext[c.Index]), st) })
+
+		// Dense: very many tiny MapStream runs in which f fails while the sender goroutine is busy
+		// (never parked): the reported error must be f's, never a cancellation made by the library.
+		nDense := r.Scale(160, 320)
+		tDense := time.Now()
+		r.Cases("dense", nDense, 2*workers, func(c *vkit.Case) { runDense(c, denseBatch) })
+		r.SetExtra("dense_group_wall_s", time.Since(tDense).Seconds())
 
 		// GOMAXPROCS changed inside the process: "parallelism <= 0 means GOMAXPROCS" is judged against
 		// the value in force when MapIterator / MapStream is called. GOMAXPROCS is process-global, so
@@ -198,6 +224,10 @@ func main() {
 			}
 			r.Floor("cases run after runtime.GOMAXPROCS(g) was changed in this process", r.Table("cases", "procs"), int64(len(procs)))
 			r.Floor("such cases in which taken - nextStarted reached the implementation's limit", r.Table("procs", "in-flight reached max(buffer,GOMAXPROCS)+1"), int64(len(procs)/4))
+			r.Floor("MapIterator cases with an extreme bufferSize", r.Table("cases", "extreme"), int64(len(ext)))
+			r.Floor("dense tiny MapStream runs (f fails while the sender is busy)", r.Table("dense", "streams"), int64(nDense*denseBatch))
+			r.Floor("dense runs in which f's own error surfaced", r.Table("dense", "f's error surfaced"), int64(nDense*denseBatch))
+			r.Floor("dense runs at parallelism 1", r.Table("dense", "parallelism 1"), int64(nDense*denseBatch/2))
 			r.Floor("errors surfaced that f returned", r.Table("stream error", "from f"), 20)
 			r.Floor("errors surfaced that the source returned", r.Table("stream error", "from source"), 20)
 		}
@@ -253,10 +283,19 @@ type plan struct {
 	ctxMode  []uint8 // per Next ordinal (cyclic): 0 live, 1 already cancelled, 2.. timeout
 	stragEx  int32
 	beff     int
+	lim      int // beff+1 (saturating): the most the implementation lets taken run ahead of yielded
 	gateGoal int64
 }
 
 func fval(x int) int { return 3*x + 1 }
+
+// satAdd is a+b for a, b >= 0, saturating at math.MaxInt.
+func satAdd(a, b int) int {
+	if a > math.MaxInt-b {
+		return math.MaxInt
+	}
+	return a + b
+}
 
 func imax(a, b int) int {
 	if a > b {
@@ -289,7 +328,8 @@ func basePlan(rnd *vkit.Rand, api string, n, par, buf int) *plan {
 		pl.P = runtime.GOMAXPROCS(0)
 	}
 	pl.beff = imax(pl.Buf, pl.P)
-	pl.Bound = imax(pl.Buf, 0) + pl.P + 1
+	pl.lim = satAdd(pl.beff, 1)
+	pl.Bound = satAdd(imax(pl.Buf, 0), pl.P+1)
 	pl.vals = rnd.Perm(n)
 	pl.inv = make([]int, n)
 	for i, v := range pl.vals {
@@ -382,6 +422,212 @@ func mkSmallPlan(rnd *vkit.Rand, api string, sp smallSpec) *plan {
 	pl.Dep, pl.DepK = smallModels[sp.model].dep, smallModels[sp.model].k
 	pl.SrcCtx = true
 	return pl
+}
+
+// Extreme bufferSize.
+
+type extSpec struct{ par, bk int }
+
+func mkExtremePlan(rnd *vkit.Rand, sp extSpec) *plan {
+	p := sp.par
+	if p <= 0 {
+		p = runtime.GOMAXPROCS(0)
+	}
+	buf := []int{math.MaxInt, math.MaxInt - 1, math.MaxInt - p, math.MaxInt / 2, 1 << 40}[sp.bk]
+	pl := basePlan(rnd, "iter", vkit.Pick(rnd, []int{0, 1, 2, 5, 17, 40}), sp.par, buf)
+	pl.Lat = "rev"
+	pl.Mode = "extreme-buffer"
+	for i := range pl.lat {
+		pl.lat[i] = int32((3 - i%4) * 60)
+	}
+	if rnd.Bool(0.5) {
+		pl.Pace = "slow"
+		for i := range pl.paceLat {
+			pl.paceLat[i] = int32(rnd.Intn(80))
+		}
+	}
+	if rnd.Bool(0.3) {
+		pl.Dep, pl.DepK = "wave", 2+rnd.Intn(3)
+	}
+	return pl
+}
+
+// Dense tiny MapStream runs.
+
+const denseBatch = 400
+
+type denseSpec struct {
+	Par  int    `json:"parallelism"`
+	Buf  int    `json:"bufferSize"`
+	N    int    `json:"len"`
+	P    int    `json:"f_fails_at"`
+	Spin int    `json:"source_spin_iterations_per_item"`
+	Kind string `json:"f_error_value"`
+	kind int
+}
+
+// denseSrc never blocks: it returns its items at once, or after Spin polls of its context.
+type denseSrc struct {
+	n, pos, spin int
+	closes       atomic.Int32
+	ctxErrs      atomic.Int32
+}
+
+func (s *denseSrc) Next(ctx context.Context) (int, error) {
+	for i := 0; i < s.spin; i++ {
+		if err := ctx.Err(); err != nil {
+			s.ctxErrs.Add(1)
+			return 0, err
+		}
+	}
+	if s.pos >= s.n {
+		return 0, stream.End
+	}
+	x := s.pos
+	s.pos++
+	return x, nil
+}
+
+func (s *denseSrc) Close() { s.closes.Add(1) }
+
+// denseOne runs one tiny stream; it returns the number of comparisons and a violation, if any.
+func denseOne(sp denseSpec) (evals int, v *viol) {
+	e := mkErr(sp.kind, "verif: injected f error (dense)")
+	var fRet atomic.Bool
+	src := &denseSrc{n: sp.N, spin: sp.Spin}
+	var final error
+	got := 0
+	pn := vkit.Try(func() {
+		s := parallel.MapStream[int, int](context.Background(), src, sp.Par, sp.Buf, func(ctx context.Context, x int) (int, error) {
+			if x == sp.P {
+				fRet.Store(true)
+				return 0, e
+			}
+			return fval(x), nil
+		})
+		for {
+			x, err := s.Next(context.Background())
+			evals++
+			if err != nil {
+				final = err
+				break
+			}
+			if got >= sp.P || x != fval(got) {
+				v = &viol{"output-order", fmt.Sprintf("MapStream result #%d is %d, want f(%d) = %d and nothing at or beyond the failing item %d", got, x, got, fval(got), sp.P), nil}
+				break
+			}
+			got++
+		}
+		s.Close()
+	})
+	switch {
+	case pn != nil:
+		return evals, &viol{"panic", "MapStream panicked: " + pn.Msg, map[string]any{"stack": pn.Stack}}
+	case v != nil:
+		return evals, v
+	case final == stream.End:
+		return evals, &viol{"error-lost", fmt.Sprintf("MapStream reported End after %d results although f fails at item %d", got, sp.P), nil}
+	case !(errors.Is(final, e) && fRet.Load()):
+		sig := "foreign-error"
+		if errors.Is(final, context.Canceled) || errors.Is(final, context.DeadlineExceeded) {
+			sig = "bare-context-error"
+		}
+		return evals, &viol{sig, fmt.Sprintf("MapStream Next reported %q after %d results; f failed at item %d with %q (returned: %v) and the caller cancelled nothing (the source returned its ctx.Err() %d times)",
+			final.Error(), got, sp.P, e.Error(), fRet.Load(), src.ctxErrs.Load()), nil}
+	}
+	evals++
+	if c := src.closes.Load(); c != 1 {
+		return evals, &viol{"close-source-closes", fmt.Sprintf("after MapStream Close returned, the source had been closed %d times (want exactly 1)", c), nil}
+	}
+	return evals, nil
+}
+
+func runDense(c *vkit.Case, batch int) {
+	rep := c.R
+	if rep.NViolations() >= 3 {
+		return
+	}
+	rnd := c.Rand
+	specs := make([]denseSpec, batch)
+	for i := range specs {
+		sp := &specs[i]
+		sp.Par = 1
+		if rnd.Bool(0.2) {
+			sp.Par = 2
+		}
+		sp.Buf = vkit.Pick(rnd, []int{0, 1, 4})
+		sp.P = rnd.Intn(6)
+		sp.N = sp.P + 2 + rnd.Intn(3)
+		if rnd.Bool(0.75) { // swept: the sender has to be busy for about as long as f takes to fail
+			sp.Spin = ((c.Index*batch + i) % 61) * 4
+		}
+		if rnd.Bool(0.3) {
+			sp.kind = rnd.Intn(len(errKinds))
+		}
+		sp.Kind = errKinds[sp.kind]
+	}
+	var rootID, cur atomic.Int64
+	var v *viol
+	evals, nPar1 := 0, 0
+	done := make(chan struct{})
+	go func() {
+		defer close(done)
+		root := gid()
+		rootID.Store(int64(root))
+		for i := range specs {
+			cur.Store(int64(i))
+			n, vv := denseOne(specs[i])
+			evals += n
+			if vv != nil {
+				v = vv
+				return
+			}
+			if specs[i].Par == 1 {
+				nPar1++
+			}
+		}
+		left := vkit.WaitNoGoroutine(func(g vkit.G) bool {
+			return createdIn(g) == root && g.Has("juniper/parallel.MapStream")
+		}, 300*time.Millisecond, 60*time.Millisecond)
+		if len(left) > 0 {
+			v = &viol{"close-goroutine-alive", fmt.Sprintf("after %d tiny MapStream runs were closed, %d parallel.MapStream goroutines are still parked", len(specs), len(left)), map[string]any{"goroutines": clip(left[0].Raw, 3000)}}
+		}
+	}()
+	verdict, dump := vkit.Await(done, vkit.AwaitOpts{
+		Relevant: func(g vkit.G) bool {
+			id := int(rootID.Load())
+			return id != 0 && (g.ID == id || createdIn(g) == id)
+		},
+		Soft: 3 * time.Second,
+		Hard: 90 * time.Second,
+	})
+	switch verdict {
+	case vkit.AwaitStuck:
+		i := cur.Load()
+		c.Violation("stuck-stream-dense", fmt.Sprintf("tiny MapStream run %d of the batch can never finish: every goroutine of the scenario is parked (%+v)", i, specs[i]),
+			map[string]any{"spec": specs[i], "index_in_batch": i, "goroutines": clip(dump, 8000)})
+		return
+	case vkit.AwaitInconclusive:
+		rep.Inconclusive(fmt.Sprintf("case %s did not finish within the hard limit although goroutines were still runnable", c.ID()))
+		return
+	}
+	rep.Eval(evals)
+	if v != nil {
+		i := cur.Load()
+		sp := specs[i]
+		w := map[string]any{"spec": sp, "index_in_batch": i, "gomaxprocs": runtime.GOMAXPROCS(0)}
+		for k, x := range v.extra {
+			w[k] = x
+		}
+		c.Violation(v.sig, fmt.Sprintf("%s [dense run %d of the batch: len=%d parallelism=%d bufferSize=%d f fails at %d with a %s error; busy source polling its ctx %d times per item]",
+			v.what, i, sp.N, sp.Par, sp.Buf, sp.P, sp.Kind, sp.Spin), w)
+		return
+	}
+	rep.Count("cases", c.Group, 1)
+	rep.Count("dense", "streams", batch)
+	rep.Count("dense", "f's error surfaced", batch)
+	rep.Count("dense", "parallelism 1", nPar1)
+	rep.Distinct(fmt.Sprintf("dense|%d", c.Index))
 }
 
 // GOMAXPROCS changed in-process.
@@ -1420,11 +1666,13 @@ func runPlan(c *vkit.Case, pl *plan, st *stats) {
 	rep.Count(api+" pace", pl.Pace, 1)
 	mi := int(r.maxInfl.Load())
 	rep.Max("taken - nextStarted", api, mi)
-	rep.Max("taken - nextStarted as permille of the stated bound (<= 1000)", api, mi*1000/pl.Bound)
-	if mi >= pl.beff+1 {
+	if pl.Bound < math.MaxInt/1000 {
+		rep.Max("taken - nextStarted as permille of the stated bound (<= 1000)", api, mi*1000/pl.Bound)
+	}
+	if mi >= pl.lim {
 		rep.Count("in-flight", "reached max(buffer,parallelism)+1", 1)
 	}
-	if mi > pl.beff+1 {
+	if mi > pl.lim {
 		rep.Count("in-flight", "above max(buffer,parallelism)+1 but within the stated bound", 1)
 	}
 	if pl.Strag >= 0 {
@@ -1467,7 +1715,7 @@ func runPlan(c *vkit.Case, pl *plan, st *stats) {
 	if pl.Procs > 0 {
 		rep.Count("procs", fmt.Sprintf("%s cases after GOMAXPROCS(%d)", api, pl.Procs), 1)
 		rep.Max("procs: f concurrency / GOMAXPROCS in force", fmt.Sprintf("GOMAXPROCS(%d)", pl.Procs), int(r.gauge.Max()))
-		if mi >= pl.beff+1 {
+		if mi >= pl.lim {
 			rep.Count("procs", "in-flight reached max(buffer,GOMAXPROCS)+1", 1)
 		}
 	}
